@@ -38,6 +38,9 @@ CHECKS = {
  "C11": (MC, GXT + " + bounded-exhaustive enumeration of transactional logs through the real consumer",
          "Every well-formed transactional log of <=5 (quick) / <=6 (thorough) batches over {data A, data B, non-transactional data, commit/abort markers} x batches per fetch x every start offset x isolation level x every order of the aborted index x two protocol generations; plus fault/schedule layer with <=B deviations; oracle: read-committed delivers exactly committed+non-transactional records below the last stable offset, read-uncommitted all data records, control records never.",
          "aborted index and last stable offset computed by simkafka as a faithful broker would.", "§6 C11"),
+ "C06": (MC, "explicit-state breadth-first search over the real offset manager (successor = history replayed on a fresh instance + one event, visited set on a canonical state key validated by an unpruned differential search) under the controlled scheduler",
+         "All event sequences (MarkOffset/ResetOffset with offsets cur-1..cur+2, auto-commit tick or manual Commit, the om.flush.sent gate, every coordinator answer incl. per-partition error classes, missing block, connection loss with/without storing, Close, second Close) to depth 7 (quick) / 9 (thorough) for 1 partition (auto and manual commit) and depth 5/7 for 2 partitions with retention; invariants in every state: committed pairs are marked pairs, no unexplained backwards store, Mark never lowers / Reset never raises, fresh NextOffset, position!=store => dirty, after a clean Close the store equals the latest mark.",
+         "state key = bridge dump of the manager + coordinator store + request in flight + parked committer's snapshot + connection states + call history; its soundness is checked by the unpruned search two levels shallower (identical key sets required) and by run-to-run stability of the state count.", "§6 C06"),
 }
 NOT_YET = {}
 props = [json.loads(l) for l in open(os.path.join(ROOT, "properties.jsonl"))]
